@@ -60,6 +60,8 @@ def render_cond(c):
             out.append("#error E%d" % i)
         elif k == "include":
             out.append('#include "inc%d.h"' % i)
+        elif k == "cmtdir":
+            out += ["/* a comment whose lines look like directives", "#else", "#define Z 1", "#endif", "#error not an error", "   end of the comment */"]
         elif k == "if":
             out.append("#if " + it["c"])
         elif k in ("ifdef", "ifndef"):
@@ -597,7 +599,9 @@ def c08(tier):
         base = [c for c in cases if c["filler"] == 0 and len(c["dirs"]) <= 2]
         rest = [c for c in cases if c["filler"] == 0 and len(c["dirs"]) > 2]
         fill = [c for c in cases if c["filler"] != 0]      # each costs ~0.2 s (the regex set is rebuilt per #define)
-        cases = base + rnd.sample(rest, min(len(rest), 9000)) + rnd.sample(fill, min(len(fill), 500))
+        # removals in two different blocks of 100 macros (a filler of the first block, then a macro that lies in a later block)
+        two = [c for c in fill if c["filler"] >= 100 and any(dd["k"] == "undef" and dd["name"] == "FILL3" for dd in c["dirs"])]
+        cases = base + rnd.sample(rest, min(len(rest), 9000)) + rnd.sample(fill, min(len(fill), 400)) + rnd.sample(two, min(len(two), 120))
     else:
         rnd = random.Random(common.seed())
         fill = [c for c in cases if c["filler"] != 0]
